@@ -120,8 +120,8 @@ extern "C"
         // stack of the callers: from this frame upwards
         uint8_t *sp = (uint8_t *)__builtin_frame_address(0);
         size_t stack_n = 24 * 1024;
-        if (stack_top && sp + 256 + stack_n > stack_top)
-            stack_n = stack_top > sp + 256 ? (size_t)(stack_top - (sp + 256)) : 0;
+        if (stack_top && sp + 16 + stack_n > stack_top)
+            stack_n = stack_top > sp + 16 ? (size_t)(stack_top - (sp + 16)) : 0;
         size_t static_n = (size_t)(&_end - &__data_start);
         in_parallel = true;
         cur_team = (int)T;
@@ -138,7 +138,7 @@ extern "C"
                 for (auto &r : regs)
                     snaps.emplace_back(r.p, r.p + r.n);
                 snap_static.assign((uint8_t *)&__data_start, (uint8_t *)&__data_start + static_n);
-                snap_stack.assign(sp + 256, sp + 256 + stack_n);
+                snap_stack.assign(sp + 16, sp + 16 + stack_n);
                 busy = false;
             }
             fn(data);
@@ -156,7 +156,7 @@ extern "C"
                 }
                 for (size_t i = 0; i < regs.size(); i++)
                     diff(snaps[i], regs[i].p, regs[i].n, (int)i, ml.writes, 8);
-                diff(snap_stack, sp + 256, stack_n, (int)regs.size(), ml.writes, 8);
+                diff(snap_stack, sp + 16, stack_n, (int)regs.size(), ml.writes, 8);
                 // static data: ignore the shim's / harness's own bookkeeping by only looking at library-visible changes:
                 // the harness does not touch globals while a member runs, so any change is the member's.
                 {
